@@ -105,6 +105,13 @@ func (f *FaultBucket) step(path, kind string) (FaultMode, string) {
 	return "", ""
 }
 
+// Disarm removes the planned faults that have not fired (recording continues).
+func (f *FaultBucket) Disarm() {
+	f.mu.Lock()
+	defer f.mu.Unlock()
+	f.plans = nil
+}
+
 // FiredCount returns how many planned faults fired.
 func (f *FaultBucket) FiredCount() int {
 	f.mu.Lock()
